@@ -84,6 +84,7 @@ def run(chk):
     rule_flow(chk)
     rule_namemap(chk)
     rule_qualified_refs(chk)
+    rule_qualified_eval(chk)
 
 
 def rule_builtins(chk, res):
@@ -448,6 +449,45 @@ def rule_namemap_callers(chk, b):
                     ok = any(x.get("k") == "Const" and x["path"].startswith(crate) and short(x["path"]) == "RESERVED_NAMES" for x in F.walk(a1))
         chk.ob("C15.seeded/%s-passes-its-list" % crate, ok, "NameMap::build(module, %s::RESERVED_NAMES, ..)" % crate if ok else
                "%s no longer passes its own RESERVED_NAMES to NameMap::build" % crate, crate)
+
+def rule_qualified_eval(chk):
+    """NameMap::get_name_qualified read on a model name map (namespaces A > B > C, entities at depth 0..3): the path is
+    the enclosing namespaces outermost first, then the entity's own name."""
+    import interp as I
+    f = chk.facts
+    fn = f.fn("get_name_qualified", "rssl_ir", self_ty="NameMap")
+    if not chk.anchor("C15.anchor/get_name_qualified", fn, "NameMap::get_name_qualified"):
+        return
+    ns = lambda i: I.Enum("NameSymbol", "Namespace", {"0": I.Enum("NamespaceId", None, {"0": i})})
+    fnsym = lambda i: I.Enum("NameSymbol", "Function", {"0": I.Enum("FunctionId", None, {"0": i})})
+    some = lambda i: I.Enum("Option", "Some", {"0": I.Enum("NamespaceId", None, {"0": i})})
+    none = I.Enum("Option", "None")
+    nm = lambda name, parent: I.Enum("Name", None, {"name": name, "namespace": parent})
+    names = I.HMap()
+    names.put(ns(0), nm("A", none))
+    names.put(ns(1), nm("B", some(0)))
+    names.put(ns(2), nm("C", some(1)))
+    names.put(ns(3), nm("B", none))
+    CASES = [(fnsym(0), "f0", none, ["f0"]), (fnsym(1), "f1", some(0), ["A", "f1"]), (fnsym(2), "f2", some(1), ["A", "B", "f2"]),
+             (fnsym(3), "f3", some(2), ["A", "B", "C", "f3"]), (fnsym(4), "A", some(3), ["B", "A"])]
+    for sym, leaf, parent, want in CASES:
+        names.put(sym, nm(leaf, parent))
+    nmap = I.Enum("NameMap", None, {"names": names})
+    ip = I.Interp(f, max_depth=6, extern={})
+    bad = None
+    for sym, leaf, parent, want in CASES:
+        try:
+            r = ip.apply(fn, [nmap, sym])
+        except I.Unknown as e:
+            if "panicking" in str(e):
+                bad = bad or "the qualified name of `%s` aborts (%s)" % ("::".join(want), str(e)[:60])
+                continue
+            chk.unreadable("C15.ref/qualified-path/readable", "NameMap::get_name_qualified", e, where(fn))
+            return
+        got = r.fields.get("0") if isinstance(r, I.Enum) else None
+        if got != want:
+            bad = bad or "an entity declared as %s is referred to as %s" % ("::".join(want), "::".join(map(str, got)) if isinstance(got, list) else got)
+    chk.ob("C15.ref/qualified-path", bad is None, "entities at namespace depth 0..3: the path lists the namespaces outermost first, then the name" if bad is None else bad, where(fn))
 
 
 def rule_qualified_refs(chk):
